@@ -175,6 +175,32 @@ def _wrapper_sides(ctx, fx):
            " -- an unsynchronised path across the crossing when the wrapper is an AsyncFIFO")
 
 
+def crossing_stage_domains(ctx, rid, fx=None):
+    """ClockDomainCrossing: every clocked element of the crossing lives in one of the two domains it was given: the same-domain buffer
+    is renamed onto that domain, the FIFO's write / read sides onto cd_from / cd_to (a bare Buffer would be clocked by `sys`, whatever
+    the stream's domain).  Shared with C04: a buffer register clocked by a domain other than its stream's changes the offered token
+    under valid & ~ready."""
+    if fx is None:
+        fx = fx_of(ctx, STREAM, "ClockDomainCrossing")
+    # every clocked element of the crossing lives in one of the two domains it was given: the same-domain buffer is renamed onto that
+    # domain, the FIFO's write / read sides onto cd_from / cd_to (a bare Buffer would be clocked by `sys`, whatever the stream's domain)
+    clocked = [i for i in fx.insts if i.cls in ("Buffer", "AsyncFIFO", "SyncFIFO", "PipeValid", "PipeReady")]
+    ctx.ob(rid, STREAM, "ClockDomainCrossing", "clocked stages:present", len(clocked) >= 2, f"{[i.cls for i in clocked]}", 0)
+    for i in clocked:
+        ws = [norm(w) for w in i.wrappers]
+        if ("cd_from == cd_to", True) in i.pyguards:
+            ok = any(w in ("ClockDomainsRenamer(cd_from)", "ClockDomainsRenamer(cd_to)", "ClockDomainsRenamer({'sys': cd_from})",
+                           "ClockDomainsRenamer({'sys': cd_to})") for w in ws)
+            want = "ClockDomainsRenamer(cd_from)"
+        else:
+            ok = any(w.replace('"', "'") in ("ClockDomainsRenamer({'write': cd_from, 'read': cd_to})", "ClockDomainsRenamer({'read': cd_to, 'write': cd_from})")
+                     for w in ws)
+            want = "ClockDomainsRenamer({'write': cd_from, 'read': cd_to})"
+        ctx.ob(rid, STREAM, "ClockDomainCrossing", f"{i.name} ({i.cls}) clocked by the crossing's own domains", ok,
+               "" if ok else f"{i.name} = {'∘'.join(ws) or '(no renamer)'}∘{i.cls}(..): expected {want} -- the stage runs in the default `sys` domain "
+                             f"while the stream it carries belongs to another one: tokens are dropped / duplicated when the clocks differ", i.node)
+
+
 def run(ctx):
     ctx.rule("X1", "no bypass: producer reaches consumer only through a synchroniser; no statement of domain B reads a signal "
                    "typed in another domain; synchroniser inputs are driven from their own domain", min_sites=18)
@@ -257,23 +283,7 @@ def run(ctx):
     ok = all(("cd_from == cd_to", True) in c["pyguards"] for c in direct)
     ctx.ob("X1", STREAM, "ClockDomainCrossing", "direct sink->source connect only when cd_from == cd_to", ok,
            "" if ok else "sink is connected straight to source outside the same-domain arm")
-    # every clocked element of the crossing lives in one of the two domains it was given: the same-domain buffer is renamed onto that
-    # domain, the FIFO's write / read sides onto cd_from / cd_to (a bare Buffer would be clocked by `sys`, whatever the stream's domain)
-    clocked = [i for i in fx.insts if i.cls in ("Buffer", "AsyncFIFO", "SyncFIFO", "PipeValid", "PipeReady")]
-    ctx.ob("X1", STREAM, "ClockDomainCrossing", "clocked stages:present", len(clocked) >= 2, f"{[i.cls for i in clocked]}", 0)
-    for i in clocked:
-        ws = [norm(w) for w in i.wrappers]
-        if ("cd_from == cd_to", True) in i.pyguards:
-            ok = any(w in ("ClockDomainsRenamer(cd_from)", "ClockDomainsRenamer(cd_to)", "ClockDomainsRenamer({'sys': cd_from})",
-                           "ClockDomainsRenamer({'sys': cd_to})") for w in ws)
-            want = "ClockDomainsRenamer(cd_from)"
-        else:
-            ok = any(w.replace('"', "'") in ("ClockDomainsRenamer({'write': cd_from, 'read': cd_to})", "ClockDomainsRenamer({'read': cd_to, 'write': cd_from})")
-                     for w in ws)
-            want = "ClockDomainsRenamer({'write': cd_from, 'read': cd_to})"
-        ctx.ob("X1", STREAM, "ClockDomainCrossing", f"{i.name} ({i.cls}) clocked by the crossing's own domains", ok,
-               "" if ok else f"{i.name} = {'∘'.join(ws) or '(no renamer)'}∘{i.cls}(..): expected {want} -- the stage runs in the default `sys` domain "
-                             f"while the stream it carries belongs to another one: tokens are dropped / duplicated when the clocks differ", i.node)
+    crossing_stage_domains(ctx, "X1", fx)
     # X4
     m = ctx.mod(STREAM)
     init = m.method("ClockDomainCrossing", "__init__")
